@@ -15,7 +15,10 @@ import (
 func StdCfg(i, mode int) Cfg {
 	host := net.HardwareAddr{0x00, 0x55, 0x55, 0x55, 0x55, 0x55}
 	router := net.HardwareAddr{0x00, 0x66, 0x66, 0x66, 0x66, 0x66}
-	switch i % 3 {
+	switch i % 4 {
+	case 3: // netfilter prefix = home LAN, as dhcp4_spoofer.New configures it
+		return Cfg{Mode: mode, HostIP: 0xc0a80009, HostMAC: host, RouterIP: 0xc0a80001, RouterMAC: router,
+			HomeIP: 0xc0a80000, HomeBits: 28, NfIP: 0xc0a80009, NfBits: 28, DNS: 0x08080404}
 	case 0: // home /28 (pool of 12), netfilter /29 (pool of 5)
 		return Cfg{Mode: mode, HostIP: 0xc0a80009, HostMAC: host, RouterIP: 0xc0a80001, RouterMAC: router,
 			HomeIP: 0xc0a80000, HomeBits: 28, NfIP: 0xc0a80009, NfBits: 29, DNS: 0x08080404}
@@ -85,7 +88,7 @@ func (g *Gen) anyIP() uint32 {
 }
 
 var xids = []uint32{0x11111111, 0x22222222, 0x33333333}
-var prls = [][]byte{nil, {1, 3, 6}, {1, 121, 3, 6, 15, 119, 252}, {1, 33, 3, 6, 15, 26, 28, 51, 58, 59}, {53, 54, 51, 6}, {6, 1}}
+var prls = [][]byte{nil, {1, 3, 6}, {1, 3, 6}, {3, 6, 1}, {1, 121, 3, 6, 15, 119, 252}, {1, 33, 3, 6, 15, 26, 28, 51, 58, 59}, {53, 54, 51, 6}, {6, 1}}
 
 func (g *Gen) cid(i int, v int) (bool, []byte) {
 	switch v {
